@@ -33,6 +33,8 @@ def check(ctx):
         for fam in FAMILIES:
             for mode in MODES:
                 check_kernel(ctx, KE, fam, mode, backend, outputs=("MXX", "MYY", "mu_r", "mu_i"), rule="R5-window-applied-after-detrend")
+    from ..effects import check_no_shared_module_state
+    check_no_shared_module_state(ctx, rule="R7-config-not-shared")
     ctx.trust("A.5 published cubic coefficients", "numpy.kaiser(M, beta) is the symmetric Kaiser window with beta = pi*alpha")
     ctx.assume("exact arithmetic; the dB claim itself (Bessel-function numerics, recurrence precision) is not decided")
     return ("Narrow claim: kaiser_alpha(psll) equals the published cubic (normal forms, Horner or expanded); on every Kaiser path config['alpha'] = "
